@@ -3,6 +3,9 @@
 # limitations), and no stored behaviour-preserving refactoring may raise any alarm. Two refactorings at a time.
 V=$(cd "$(dirname "$0")/.." && pwd)
 out=${1:-/tmp/regress}
+# the scratch builds share one private build cache, removed at the end (hundreds of variants fill the default cache with >100 GB)
+export GOCACHE=/tmp/verif-gocache
 "$V/scripts/seeded_all.sh" > "$out.seeds" 2>&1
 ls "$V"/benign/*.diff | xargs -P 10 -I{} sh -c "$V/scripts/refac_eval.sh {} 2>&1 | cut -c1-300" > "$out.benign" 2>&1
 echo FINISHED >> "$out.benign"
+rm -rf /tmp/verif-gocache
